@@ -28,7 +28,7 @@ REGISTRY = {
     "C16": {"engine": "histsim", "quick": (40, 10 ** 7), "thorough": (300, 10 ** 8)},
     "C18": {"engine": "histsim", "quick": (40, 10 ** 7), "thorough": (300, 10 ** 8)},
     "C17": {"engine": "clisim", "quick": (50, 10 ** 7), "thorough": (420, 10 ** 8)},
-    "C19": {"engine": "threadsim", "quick": (60, 10 ** 7), "thorough": (480, 10 ** 8)},
+    "C19": {"engine": "threadsim", "quick": (90, 10 ** 7), "thorough": (480, 10 ** 8)},
     "C20": {"engine": "relsim", "quick": (15, 10 ** 7), "thorough": (120, 10 ** 8)},
 }
 SELFCHECK_SEEDS = 8
@@ -165,6 +165,9 @@ def cmd_check(args):
                             opts=opts)
     if merged["runs"] == 0:
         raise HarnessError("no run completed within the budget")
+    if len(merged["crashes"]) * 2 > merged["runs"]:
+        raise HarnessError(f"{len(merged['crashes'])} of {merged['runs']} runs broke the "
+                           f"simulator, first: run {merged['crashes'][0]}")
 
     # determinism self-check: the first few indices again, in a fresh interpreter
     # under a different hash seed; event-log digests must be identical
@@ -247,6 +250,9 @@ def cmd_check(args):
         print(f"violation: {v2.cls} [{v2.fingerprint}] first at run index {out.index}: "
               f"{v2.msg[:600]}")
         print(f"VIOLATION property={prop} replay={path}")
+    if merged["crashes"] and not reported:
+        raise HarnessError(f"{len(merged['crashes'])} run(s) broke the simulator and no "
+                           f"violation was pinned down; first: run {merged['crashes'][0]}")
     print(f"{prop} {tier}: runs={merged['runs']} steps={merged['steps']} "
           f"distinct_nontrivial={cov['distinct_nontrivial']} wall={wall:.1f}s "
           f"violations={len(reported)} known={len(known_hits)}")
